@@ -1482,7 +1482,15 @@ func main() {
 	}
 
 	// ------------------------------------------------------------------ R4: expressions as deep as Parse allows
+	// the table facts the theorems assume, over every code point (review 2)
+	res.OracleChecks++
+	for _, f := range exsx.TableFacts() {
+		res.Fail("table-fact-assumed-by-theorems-does-not-hold", map[string]any{"fact": f}, f)
+	}
 	depthLimitOracle(res)
+
+	// ------------------------------------------------------------------ R5: expressions at the evaluator's work budget
+	workBudgetOracle(res)
 
 	refSh.Flush()
 	res.Write(o)
